@@ -291,3 +291,117 @@ func Verif_C18_as_path() {
 	verifCoverIf("aspath-set-and-sequence", verifAnd(verifAnd(segOn[0], segOn[1]), segTyp[0] != segTyp[1]))
 	verifCoverIf("aspath-empty", L == 0)
 }
+
+// Boundary element counts: the element loops are executed concretely (count and length
+// chosen from a boundary menu), the contents stay symbolic — reaches the 8-bit / extended
+// length boundaries (63/64/65, 127/128, 255 elements; > 255-byte values) that the
+// symbolic-length harnesses cut at their unwinding bound.
+var c18Counts = []int{1, 2, 63, 64, 65, 127, 128, 255}
+
+func Verif_C18_as_path_boundary_counts() {
+	verifNote("AS_PATH with 1..2 segments whose AS-number counts are drawn from {1,2,63,64,65,127,128,255} (element loops run concretely), segment types and all AS-number bytes symbolic, flags well-formed")
+	ns := 1 + verifChoose("segments", 2)
+	var val []byte
+	type seg struct {
+		typ uint8
+		cnt int
+		off int
+	}
+	var segs []seg
+	for s := 0; s < ns; s++ {
+		cnt := c18Counts[verifChoose("count", len(c18Counts))]
+		typ := verifU8("segtype")
+		verifAssume(verifOr(typ == 1, typ == 2))
+		segs = append(segs, seg{typ, cnt, len(val)})
+		val = append(val, typ, byte(cnt))
+		val = append(val, verifBuf("asns", 4*cnt, 4*cnt)...)
+	}
+	var a ASPathAttr
+	err := a.Decode(PathAttrFlags(0x40), val)
+	verifAssert("wellformed-long-as-path-accepted", err == nil)
+	if err != nil {
+		return
+	}
+	nSeq, nSet := 0, 0
+	for _, sg := range segs {
+		nSeq = verifIteInt(sg.typ == 2, nSeq+sg.cnt, nSeq)
+		nSet = verifIteInt(sg.typ == 1, nSet+sg.cnt, nSet)
+	}
+	verifAssert("no-as-number-lost-sequence", len(a.ASSequence) == nSeq)
+	verifAssert("no-as-number-lost-set", len(a.ASSet) == nSet)
+	baseSeq, baseSet := 0, 0
+	for _, sg := range segs {
+		j := verifRange("j", 0, sg.cnt-1)
+		want := c18be32(val, sg.off+2+4*j)
+		verifAssert("as-number-value-sequence", verifImplies(sg.typ == 2, c18u32At(a.ASSequence, baseSeq+j) == want))
+		verifAssert("as-number-value-set", verifImplies(sg.typ == 1, c18u32At(a.ASSet, baseSet+j) == want))
+		baseSeq = verifIteInt(sg.typ == 2, baseSeq+sg.cnt, baseSeq)
+		baseSet = verifIteInt(sg.typ == 1, baseSet+sg.cnt, baseSet)
+	}
+	verifCover("long-as-path")
+}
+
+func Verif_C18_set_attrs_boundary_counts() {
+	verifNote("COMMUNITIES / CLUSTER_LIST / LARGE_COMMUNITIES with element counts from {1,2,63,64,65,127,128,255} (+/- 1 byte), contents symbolic; error notifications carry > 255-byte values in extended-length form")
+	cnt := c18Counts[verifChoose("count", len(c18Counts))]
+	delta := verifChoose("length-delta", 3) - 1 // -1, 0, +1 byte
+	switch verifChoose("attr", 3) {
+	case 0:
+		b := verifBuf("val", 4*cnt+delta, 4*cnt+delta)
+		var c CommunitiesPathAttr
+		err := c.Decode(PathAttrFlags(0xC0), b)
+		verifAssert("communities-accept-iff-multiple-of-4", (err == nil) == (delta == 0))
+		if err == nil {
+			verifAssert("communities-count", len(c) == cnt)
+			j := verifRange("j", 0, cnt-1)
+			verifAssert("communities-value", c[j] == c18be32(b, 4*j))
+		} else {
+			c18LenErrData("communities", err, PATH_ATTR_COMMUNITY, b)
+		}
+	case 1:
+		b := verifBuf("val", 4*cnt+delta, 4*cnt+delta)
+		var c ClusterListPathAttr
+		err := c.Decode(PathAttrFlags(0x80), b)
+		verifAssert("clusterlist-accept-iff-multiple-of-4", (err == nil) == (delta == 0))
+		if err == nil {
+			verifAssert("clusterlist-count", len(c) == cnt)
+		} else {
+			c18LenErrData("clusterlist", err, PATH_ATTR_CLUSTER_LIST, b)
+		}
+	case 2:
+		b := verifBuf("val", 12*cnt+delta, 12*cnt+delta)
+		var l LargeCommunitiesPathAttr
+		err := l.Decode(PathAttrFlags(0xC0), b)
+		verifAssert("largecomm-accept-iff-multiple-of-12", (err == nil) == (delta == 0))
+		if err == nil {
+			verifAssert("largecomm-count", len(l) == cnt)
+		} else {
+			c18LenErrData("largecomm", err, PATH_ATTR_LARGE_COMMUNITY, b)
+		}
+	}
+	verifCover("boundary-counts")
+}
+
+// c18LenErrData: length fault => treat-as-withdraw, (3,5), data = code | length (1 or 2 octets) | value
+func c18LenErrData(name string, err error, code uint8, b []byte) {
+	t, ok := err.(*TreatAsWithdrawUpdateErr)
+	verifAssert(name+"-length-fault-is-treat-as-withdraw", ok)
+	if !ok || t.Notification == nil {
+		return
+	}
+	n := t.Notification
+	verifAssert(name+"-length-fault-subcode", n.Code == NOTIF_CODE_UPDATE_MESSAGE_ERR && n.Subcode == NOTIF_SUBCODE_ATTR_LEN_ERR)
+	hdr := 2
+	if len(b) > 255 {
+		hdr = 3
+	}
+	verifAssert(name+"-data-length", len(n.Data) == hdr+len(b))
+	verifAssert(name+"-data-code", verifAt(n.Data, 0) == code)
+	if len(b) > 255 {
+		verifAssert(name+"-data-extended-length", int(verifAt(n.Data, 1))<<8|int(verifAt(n.Data, 2)) == len(b))
+	} else {
+		verifAssert(name+"-data-length-octet", int(verifAt(n.Data, 1)) == len(b))
+	}
+	k := verifRange("dk", 0, len(b)-1)
+	verifAssert(name+"-data-value", verifAt(n.Data, hdr+k) == verifAt(b, k))
+}
